@@ -109,8 +109,17 @@ func report(p *Program, results []*Result, prop, tier, verif string, loadMs int6
 	}
 	if writeLock {
 		var names []string
+		prev := map[string]bool{}
+		for _, n := range lock[prop] {
+			prev[n] = true
+		}
+		intersect := os.Getenv("GOVC_LOCK_INTERSECT") != ""
 		for _, r := range results {
-			if r.Status == "proved" && !r.Vacuity && hasProp(r, prop) {
+			// only obligations that discharge well inside the quick budget are claimed
+			if r.Status == "proved" && !r.Vacuity && !r.Bounded && hasProp(r, prop) && r.Millis < 2500 && r.ExecMs < 8000 {
+				if intersect && !prev[r.Oblig] {
+					continue
+				}
 				names = append(names, r.Oblig)
 			}
 		}
